@@ -18,31 +18,6 @@ theorem C17_round_robin_prefix {α : Type} (xs : List α) (idx : Nat) (h : idx <
     cycleGet xs idx = some xs[idx] :=
   cycleGet_lt xs idx h
 
-theorem paramCombos_carry (ps : Params) (c n : String) (x : Json) (h : HasP ps c n x) :
-    ∃ j, ∃ hj : j < (paramCombos ps).length, ∀ b, Carries ((paramCombos ps)[j]) b (.param c n x) := by
-  obtain ⟨vars, h1, vs, h2, hx⟩ := h
-  obtain ⟨j, hj, hjx⟩ := List.getElem_of_mem hx
-  have hc := lookupC_mem c ps vars h1
-  have hn := lookupC_mem n vars vs h2
-  have hle : vs.length ≤ maxLen ps := maxLen_ge ps (c, vars) hc (n, vs) hn
-  have hj' : j < (paramCombos ps).length := by simp [paramCombos]; omega
-  refine ⟨j, hj', fun b => ?_⟩
-  have hget : (paramCombos ps)[j] = comboAt ps j := by simp [paramCombos]
-  rw [hget]
-  refine ⟨vars.map fun nv => (nv.1, (cycleGet nv.2 j).getD .null), ?_, ?_⟩
-  · have := lookupC_map (fun (vars : Variants) => vars.map fun nv => (nv.1, (cycleGet nv.2 j).getD Json.null)) c ps
-    simp only [comboAt]
-    rw [this, h1]; rfl
-  · have := lookupC_map (fun (vs : List Json) => (cycleGet vs j).getD Json.null) n vars
-    rw [this, h2]
-    simp only [Option.map_some, cycleGet_lt vs j hj, hjx, Option.getD_some]
-
-theorem bodyCombos_mem (bs : Variants) (mt : String) (v : Json) (h : HasV bs mt v) : (mt, v) ∈ bodyCombos bs := by
-  obtain ⟨vs, h1, hv⟩ := h
-  have := lookupC_mem mt bs vs h1
-  simp only [bodyCombos, List.mem_flatMap, List.mem_map]
-  exact ⟨(mt, vs), this, v, hv, rfl⟩
-
 /-- **C17_combinations_cover.** For every list of extracted examples, each example appears unchanged (same
     container, same name / media type, same value) in at least one of the combinations that become test cases. -/
 theorem C17_combinations_cover (exs : List Example) (e : Example) (he : e ∈ exs) :
@@ -103,11 +78,6 @@ theorem C17_some_is_not_skip (exs : List Example) (h : exs ≠ []) : produceComb
     simp at hc
 
 /-! ### extraction completeness, placement by placement (`extract_top_level`) -/
-
-theorem topValues_extracted (srcs : List Source) (s : Source) (hs : s ∈ srcs) (v : Json) (hv : v ∈ topValues s) :
-    s.mk' v ∈ extractTopLevel srcs := by
-  simp only [extractTopLevel, List.mem_flatMap, List.mem_map]
-  exact ⟨s, hs, v, hv, rfl⟩
 
 /-- parameter-level / media-type-level `example` (and `x-example` in OpenAPI 2.0) -/
 theorem C17_extract_declared_example (srcs : List Source) (s : Source) (hs : s ∈ srcs) (f : String)
@@ -198,11 +168,6 @@ theorem C17_extract_allOf_items (srcs : List Source) (s : Source) (hs : s ∈ sr
 
 /-! ### examples on (nested) properties (`extract_from_schema`) -/
 
-theorem Declared_not_bool (ef esf : String) (b : Bool) (path : List Seg) (v : Json) :
-    ¬ Declared ef esf (.bool b) path v := by
-  intro h
-  cases h <;> simp_all [Json.get?]
-
 /-- **Property-level completeness.** Every example declared on a property — at any property / items nesting
     depth, each step through at most the one level of anyOf / oneOf / allOf the code expands — ends up, unchanged and
     at its own path, inside one of the values `extract_from_schema` yields (fuel ≥ path length). -/
@@ -268,12 +233,6 @@ theorem C17_extract_property_examples (gen : Json → Json) (ef esf : String) (s
 
 
 /-! ### user-configured headers / overrides (`{**parameters, **kwargs}`) -/
-
-/-- the full statement: examples of a container survive for the names the user did not set -/
-def UserConfigKeepsExamples (variant : Variant) : Prop :=
-  ∀ (combo user : Containers) (b : Option (String × Json)) (c n : String) (v : Json),
-    Carries combo b (.param c n v) → (∀ kc ∈ user, kc.1 = c → ∀ nv ∈ kc.2, nv.1 ≠ n) →
-    Carries (mergeKwargs variant combo user) b (.param c n v)
 
 theorem C17_user_config_keeps_examples : UserConfigKeepsExamples .repaired := by
   intro combo user b c n v h hu
@@ -358,10 +317,6 @@ theorem C17_fill_notset (new : Option Container) : fillIn none new = new ∧ fil
 
 /-! ### add_examples: whatever is not turned into a test is reported -/
 
-/-- the full statement: if building the examples fails, the operation ends as an error -/
-def DroppedIsReported (vExc vHdr : Variant) : Prop :=
-  ∀ e : Exc, runStatus (addExamples vExc vHdr (.error e)) = .error
-
 theorem C17_dropped_is_reported (vHdr : Variant) : DroppedIsReported .repaired vHdr := by
   intro e
   cases e <;> rfl
@@ -404,34 +359,6 @@ theorem C17_unsendable_is_reported (vExc vHdr : Variant) (cases : List ECase) (c
     | cons _ _ => rfl
   simp [this]
 
-/-- the full statement: an example that *can* be sent survives the removal of unsendable headers -/
-def SendableExamplesSurvive (vHdr : Variant) : Prop :=
-  ∀ (cases : List ECase) (c : ECase) (e : Example), c ∈ cases → Carries c.params c.body e →
-    (∀ n v, e = .param "headers" n v → n ∉ c.invalidHeaders) →
-    ∃ c' ∈ (addLoop vHdr cases).1, Carries c'.params c'.body e
-
-theorem Carries_dropHeaders (bad : List String) (ps : Containers) (b : Option (String × Json)) (e : Example)
-    (h : Carries ps b e) (hok : ∀ n v, e = .param "headers" n v → n ∉ bad) :
-    Carries (dropHeaders bad ps) b e := by
-  cases e with
-  | body v mt => exact h
-  | param c n v =>
-    obtain ⟨cont, h1, h2⟩ := h
-    rw [dropHeaders_eq]
-    have hm := lookupC_mapk (fun k (c : Container) =>
-      if k == "headers" then c.filter (fun nv => !bad.contains nv.1) else c) c ps
-    rw [h1] at hm
-    refine ⟨_, hm, ?_⟩
-    by_cases hc : c = "headers"
-    · subst hc
-      have hn : n ∉ bad := hok n v rfl
-      simp only [BEq.rfl, if_true]
-      rw [lookupC_filter_key (fun k => !bad.contains k) n cont (by simp [hn])]
-      exact h2
-    · have : (c == "headers") = false := by simp [hc]
-      simp only [this, Bool.false_eq_true, if_false]
-      exact h2
-
 theorem C17_sendable_examples_survive : SendableExamplesSurvive .repaired := by
   intro cases c e hc hcar hok
   induction cases with
@@ -468,21 +395,6 @@ theorem C17_sendable_examples_survive_asFound_false : ¬ SendableExamplesSurvive
 
 /-! ### placements below the one combinator level the code expands: the full statements are false -/
 
-private def strS (s : String) : Json := .str s
-
-/-- parameter `q` with schema `anyOf: [ { oneOf: [ {type: string, example: "DEEP"} ] } ]` -/
-def deepParam : Source :=
-  { isBody := false, container := "query", name := "q",
-    definition := .obj [("name", .str "q"), ("in", .str "query"),
-      ("schema", .obj [("anyOf", .arr [.obj [("oneOf", .arr [.obj [("type", .str "string"), ("example", .str "DEEP")]])]])])],
-    exampleFields := ["example"], examplesField := "examples", unresolved := .null, respValues := [],
-    jsonSchema := .obj [], schemaFields := [("example", "examples")] }
-
-/-- the full statement: an example on a sub-schema reachable through *any* nesting of anyOf / oneOf is extracted -/
-def ExtractsAtAnyDepth : Prop :=
-  ∀ (s : Source) (sch branch : Json) (f : String) (v : Json), s.definition.get? "schema" = some sch →
-    Branch sch branch → f ∈ s.exampleFields → branch.get? f = some v → s.mk' v ∈ extractTopLevel [s]
-
 theorem C17_extract_any_depth_full_false : ¬ ExtractsAtAnyDepth := by
   intro h
   have hb : Branch (.obj [("anyOf", .arr [.obj [("oneOf", .arr [.obj [("type", .str "string"), ("example", .str "DEEP")]])]])])
@@ -510,17 +422,6 @@ theorem C17_extract_depth_one_partial (s : Source) (kvs : List (String × Json))
   · exact C17_extract_anyOf_oneOf_branch [s] s (by simp) kvs h "oneOf" (Or.inr rfl) subs hs branch hb v
       (Or.inl ⟨f, hf, hv⟩)
 
-/-- body schema `anyOf: [ {type: object, properties: {b: {type: string, example: "AP"}}} ]` -/
-def deepBodySchema : Json :=
-  .obj [("anyOf", .arr [.obj [("type", .str "object"),
-    ("properties", .obj [("b", .obj [("type", .str "string"), ("example", .str "AP")])])]])]
-
-/-- the full statement: property examples of a sub-schema reachable through body-level combinators are extracted -/
-def ExtractsUnderBodyCombinator : Prop :=
-  ∀ (gen : Json → Json) (ef esf : String) (schema branch : Json) (path : List Seg) (v : Json),
-    Branch schema branch → Declared ef esf branch path v →
-    ∃ fuel, ∃ obj ∈ extractFromSchemaF gen ef esf fuel schema, At obj path v
-
 theorem C17_extract_under_body_combinator_full_false : ¬ ExtractsUnderBodyCombinator := by
   intro h
   have hb : Branch deepBodySchema (.obj [("type", .str "object"),
@@ -540,21 +441,6 @@ theorem C17_extract_under_body_combinator_full_false : ¬ ExtractsUnderBodyCombi
     cases fuel <;> rfl
   rw [hnil] at hobj
   simp at hobj
-
-/-- Swagger 2.0 body parameter whose schema is `allOf: [ {type: object}, {example: {s: "LATE"}} ]` -/
-def swaggerAllOfBody : Source :=
-  { isBody := true, container := "", name := "application/json",
-    definition := .obj [("name", .str "b"), ("in", .str "body"),
-      ("schema", .obj [("allOf", .arr [.obj [("type", .str "object")],
-                                       .obj [("example", .obj [("s", .str "LATE")])]])])],
-    exampleFields := ["x-example", "example"], examplesField := "x-examples", unresolved := .null, respValues := [],
-    jsonSchema := .obj [], schemaFields := [("example", "examples"), ("x-example", "x-examples")] }
-
-/-- the full statement of `C17_extract_allOf_items` without the OpenAPI 3 field-name hypothesis -/
-def AllOfItemsExtracted : Prop :=
-  ∀ (s : Source) (kvs first : List (String × Json)) (rest : List Json) (v : Json),
-    s.definition.get? "schema" = some (.obj kvs) → Json.lookup "allOf" kvs = some (.arr (.obj first :: rest)) →
-    "example" ∈ s.exampleFields → (∃ b, Json.obj b ∈ rest ∧ Contributes b v) → s.mk' v ∈ extractTopLevel [s]
 
 theorem C17_extract_allOf_items_swagger_full_false : ¬ AllOfItemsExtracted := by
   intro h
@@ -578,16 +464,6 @@ example : (produceCombinations [.param "query" "q" (.str "Q0"), .param "query" "
 
 example : cycleGet [1, 2, 3] 7 = some 2 := by decide
 
-private def exParam : Source :=
-  { isBody := false, container := "query", name := "q",
-    definition := .obj [("name", .str "q"), ("in", .str "query"), ("example", .str "E0"),
-      ("examples", .obj [("a", .obj [("value", .str "E1")])]),
-      ("schema", .obj [("example", .str "E2"), ("examples", .arr [.str "E3"]),
-        ("oneOf", .arr [.obj [("example", .str "E4")]]),
-        ("allOf", .arr [.obj [("type", .str "string"), ("example", .str "E5")], .obj [("example", .str "E6")]])])],
-    exampleFields := ["example"], examplesField := "examples", unresolved := .obj [("a", .obj [("value", .str "E1")])],
-    respValues := [], jsonSchema := .obj [], schemaFields := [("example", "examples")] }
-
 example : exParam.mk' (.str "E0") ∈ extractTopLevel [exParam] :=
   C17_extract_declared_example [exParam] exParam (by simp) "example" (by simp [exParam]) _ rfl
 
@@ -605,12 +481,6 @@ example : exParam.mk' (.str "E6") ∈ extractTopLevel [exParam] :=
     (Or.inr (Or.inr ⟨[("example", .str "E6")], by simp, Or.inl (by simp)⟩))
 
 example : (extractTopLevel [exParam]).length = 7 := by rfl
-
-/-- a body schema with an example two property levels down, reached through an `items` step -/
-private def nestedSchema : Json :=
-  .obj [("type", .str "array"), ("items", .obj [("type", .str "object"), ("properties",
-    .obj [("a", .obj [("type", .str "object"), ("properties",
-      .obj [("b", .obj [("oneOf", .arr [.obj [("type", .str "string"), ("example", .str "NB")]])])])])])])]
 
 example : ∃ obj ∈ extractFromSchemaF (fun _ => .null) "example" "examples" 3 nestedSchema,
     At obj [.item, .prop "a", .prop "b"] (.str "NB") := by
